@@ -535,3 +535,158 @@ Qed.
 
 Lemma conv_good v t r : good v = true -> conv v t = COk r -> good r = true.
 Proof. unfold conv. apply convert_good. Qed.
+
+(* an equation between pairs whose diagnostics are visibly not ok *)
+Ltac pair_bad E :=
+  lazymatch type of E with
+  | (_, _) = (_, _) => injection E as ? ?; subst; discriminate
+  end.
+
+(* ---- the type of a converted value ---------------------------------------------------------- *)
+Lemma type_of_with_marks v m : type_of (with_marks v m) = type_of v.
+Proof. destruct m; [reflexivity|]. destruct v; reflexivity. Qed.
+
+Lemma type_of_finish_unknown t x : type_of (finish_unknown t x) = t.
+Proof.
+  unfold finish_unknown. destruct (negb (r_notnull x)); [reflexivity|].
+  destruct t; try reflexivity.
+  - destruct (r_lo x) as [[a [|]]|]; try reflexivity. destruct (r_hi x) as [[b [|]]|]; try reflexivity.
+    destruct (num_eqb a b); reflexivity.
+  - destruct (r_lenhi x); [|reflexivity]. destruct (r_lenlo x =? z); reflexivity.
+  - destruct (r_lenhi x); [|reflexivity]. destruct (r_lenlo x =? z); [|reflexivity].
+    destruct (z =? 0); [reflexivity|]. destruct (z =? 1); reflexivity.
+  - destruct (r_lenhi x); [|reflexivity]. destruct ((r_lenlo x =? z) && (z =? 0)); reflexivity.
+Qed.
+
+Lemma map_snd_combine {A B} (a : list A) (b : list B) : length a = length b -> map snd (combine a b) = b.
+Proof.
+  revert b. induction a as [|x a IH]; intros [|y b]; simpl; try discriminate; try reflexivity.
+  intros E. f_equal. apply IH. congruence.
+Qed.
+Lemma map_fst_combine {A B} (a : list A) (b : list B) : length a = length b -> map fst (combine a b) = a.
+Proof.
+  revert b. induction a as [|x a IH]; intros [|y b]; simpl; try discriminate; try reflexivity.
+  intros E. f_equal. apply IH. congruence.
+Qed.
+
+Lemma existsb_false_Forall {A} (f : A -> bool) l : existsb f l = false <-> Forall (fun x => f x = false) l.
+Proof.
+  induction l as [|x r IH]; simpl.
+  - split; [constructor|reflexivity].
+  - rewrite orb_false_iff, IH. split.
+    + intros [H1 H2]. constructor; assumption.
+    + intros H. inversion H; subst. split; assumption.
+Qed.
+
+Lemma dynamic_replace_nodyn : forall k have want, has_dyn want = false -> dynamic_replace k have want = want.
+Proof.
+  induction k as [|k IH]; intros have want H; [reflexivity|].
+  destruct want as [| | | |w|w|w|ws|ws]; simpl in *; try reflexivity; try discriminate.
+  - destruct have; try reflexivity; rewrite IH; auto.
+  - destruct have; try reflexivity; rewrite IH; auto.
+  - destruct have; try reflexivity; rewrite IH; auto.
+  - destruct have as [| | | | | | |hs|]; try reflexivity.
+    destruct (length hs =? length ws)%nat eqn:El; [|reflexivity].
+    apply Nat.eqb_eq in El. f_equal.
+    apply existsb_false_Forall in H.
+    transitivity (map snd (combine hs ws)); [|apply map_snd_combine; assumption].
+    apply map_ext_in. intros [h w] Hin. simpl. apply IH.
+    apply in_combine_r in Hin. rewrite Forall_forall in H. auto.
+  - destruct have as [| | | | | | | |hs]; try reflexivity.
+    f_equal. apply existsb_false_Forall in H.
+    transitivity (map (fun p : list Z * ty => p) ws); [|apply map_id].
+    apply map_ext_in. intros [k' w] Hin. simpl.
+    rewrite Forall_forall in H. specialize (H _ Hin). simpl in H.
+    destruct (assoc_get k' hs); [rewrite IH; auto|reflexivity].
+Qed.
+
+Lemma conv_pre_tuple_len l ws : conv_pre (VTuple l) (TTuple ws) -> length l = length ws.
+Proof.
+  intros [Et [_ Ec]]. cbn [type_of] in Et, Ec.
+  remember (TTuple (map type_of l)) as a eqn:Ha. remember (TTuple ws) as b eqn:Hb.
+  assert (K : exists k, (ty_size a + ty_size b = S k)%nat) by (subst; simpl; eauto).
+  destruct K as [k Hk]. rewrite Hk in Ec. cbn [conv_exists] in Ec. rewrite Et in Ec. subst a b.
+  apply andb_true_iff in Ec as [Ec _]. apply Nat.eqb_eq in Ec. rewrite map_length in Ec. exact Ec.
+Qed.
+
+Lemma Forall2_map_eq {A B C} (g : A -> C) (h : B -> C) l vs :
+  Forall2 (fun x v => h v = g x) l vs -> map h vs = map g l.
+Proof. induction 1; simpl; congruence. Qed.
+
+Lemma Forall2_impl_In {A B} (R Q : A -> B -> Prop) l vs :
+  (forall x v, In x l -> In v vs -> R x v -> Q x v) -> Forall2 R l vs -> Forall2 Q l vs.
+Proof.
+  intros H F. induction F as [|x v l vs Hxv F IH]; constructor.
+  - apply H; [left; reflexivity|left; reflexivity|assumption].
+  - apply IH. intros x' v' Hx Hv. apply H; right; assumption.
+Qed.
+
+Lemma convert_type : forall f v want r,
+  convert f v want = COk r -> has_dyn want = false -> type_of r = want.
+Proof.
+  induction f as [|f IH]; intros v want r E Hd; [discriminate|].
+  apply convert_inv in E.
+  destruct E as [m v want r' E|v want Hm Et|v Hm|t0 rf want P|t0 want P|n|b|s n En|s b Eb
+                 |t0 l w vs P Hd' F|t0 l w vs P Hd' F|l w vs P Hd' F|l ws vs P F
+                 |t0 kvs w vs P Hd' F|kvs w vs P Hd' F|kvs ws vs P F];
+    try reflexivity; try discriminate.
+  - rewrite type_of_with_marks. apply (IH v want r' E Hd).
+  - apply ty_eqb_eq. exact Et.
+  - rewrite (dynamic_replace_nodyn _ _ _ Hd).
+    destruct (conv_unknown_rf t0 rf want); [reflexivity|apply type_of_finish_unknown].
+  - simpl. rewrite (dynamic_replace_nodyn _ _ _ Hd). reflexivity.
+  - (* tuple -> tuple *)
+    simpl. f_equal. pose proof (conv_pre_tuple_len _ _ P) as Len.
+    simpl in Hd. apply existsb_false_Forall in Hd.
+    transitivity (map snd (combine l ws)); [|apply map_snd_combine; exact Len].
+    apply Forall2_map_eq. eapply Forall2_impl_In; [|exact F].
+    intros [x w] v Hin _ Hc. simpl in *. apply (IH x w v Hc).
+    apply in_combine_r in Hin. rewrite Forall_forall in Hd. auto.
+  - (* object -> object *)
+    simpl. f_equal. pose proof (Forall2_length _ _ _ F) as Len.
+    simpl in Hd. apply existsb_false_Forall in Hd.
+    assert (Q : forall ws vs, Forall2 (fun (p : list Z * ty) v => type_of v = snd p) ws vs ->
+                map (fun p : list Z * val => (fst p, type_of (snd p))) (combine (map fst ws) vs) = ws).
+    { clear. induction 1 as [|[k w] v ws vs H _ IHF]; simpl; [reflexivity|].
+      simpl in H. rewrite H, IHF. reflexivity. }
+    apply Q. eapply Forall2_impl_In; [|exact F].
+    intros [k w] v Hin _ Hc. simpl in *.
+    destruct (assoc_get k kvs) as [x|]; [|discriminate].
+    apply (IH x w v Hc). rewrite Forall_forall in Hd. apply (Hd _ Hin).
+Qed.
+
+Lemma conv_type v want r : conv v want = COk r -> has_dyn want = false -> type_of r = want.
+Proof. unfold conv. apply convert_type. Qed.
+
+(* shapes of good unmarked values of primitive type *)
+Lemma good_bool_shape u : good u = true -> is_marked u = false -> type_of u = TBool ->
+  (exists b, u = VBool b) \/ u = VNull TBool.
+Proof.
+  intros G M T. destruct u; simpl in *; try discriminate.
+  - left. eexists. reflexivity.
+  - right. congruence.
+Qed.
+Lemma good_num_shape u : good u = true -> is_marked u = false -> type_of u = TNum ->
+  (exists n, u = VNum n) \/ u = VNull TNum.
+Proof.
+  intros G M T. destruct u; simpl in *; try discriminate.
+  - left. eexists. reflexivity.
+  - right. congruence.
+Qed.
+Lemma good_str_shape u : good u = true -> is_marked u = false -> type_of u = TStr ->
+  (exists s, u = VStr s) \/ u = VNull TStr.
+Proof.
+  intros G M T. destruct u; simpl in *; try discriminate.
+  - left. eexists. reflexivity.
+  - right. congruence.
+Qed.
+
+Lemma unmark_type v : type_of (fst (unmark v)) = type_of v.
+Proof. destruct v; reflexivity. Qed.
+Lemma unmark_is_null v : is_null (fst (unmark v)) = is_null v \/ is_marked (fst (unmark v)) = true.
+Proof. destruct v; try (left; reflexivity). simpl. destruct v; try (left; reflexivity). right. reflexivity. Qed.
+
+Lemma good_VBool b : good (VBool b) = true. Proof. reflexivity. Qed.
+Lemma good_VNum n : good (VNum n) = true. Proof. reflexivity. Qed.
+Lemma good_VStr s : good (VStr s) = true. Proof. reflexivity. Qed.
+Lemma good_VUnk t r : good (VUnk t r) = false. Proof. reflexivity. Qed.
